@@ -81,6 +81,7 @@ def scheme_rules(ctx):
     schemes.stamp_rules(ctx)
     schemes.lfrc_rules(ctx)
     schemes.list_push_rules(ctx)
+    schemes.retire_list_pairing(ctx)
     schemes.deleter_rules(ctx)
 
 
